@@ -455,7 +455,7 @@ impl<'s, 'w, W: Write, S: Borrow<Schema>> Serializer for UnionSerializer<'s, 'w,
             ))
         } else if let Some((index, record)) = self
             .union
-            .find_record_with_n_fields(len, self.config.names)?
+            .find_record_with_n_fields(len, true, self.config.names)?
         {
             let bytes_written = zig_i32(index as i32, &mut *self.writer)?;
             Ok(TupleSerializer::many(
@@ -516,7 +516,7 @@ impl<'s, 'w, W: Write, S: Borrow<Schema>> Serializer for UnionSerializer<'s, 'w,
         });
         let record_index = if let Some(len) = len {
             self.union
-                .find_record_with_n_fields(len, self.config.names)?
+                .find_record_with_n_fields(len, false, self.config.names)?
         } else {
             None
         };
